@@ -56,7 +56,7 @@ def run(ctx):
     if task is not None:
         ctx.functions.add(task.path)
         rng = [n for b in range(task.n) for st in task.stmts(b) if st["r"]["k"] == "agg" and str(st["r"].get("adt", "")).endswith("ops::range::Range") for n in [task.expr_rvalue(st["r"], (), b, 0)]]
-        ok = bool(rng) and all(has_all(ctx.leaves(r), ["origin", "amount", "call:*Ord::min", "const:" + S + "MAX_HEADERS_AMOUNT_RESPONSE"]) for r in rng)
+        ok = bool(rng) and all(has_all(ctx.leaves(r), ["origin", "amount", ["call:*Ord::min", "call:*cmp::min", "call:*::min"], "const:" + S + "MAX_HEADERS_AMOUNT_RESPONSE"]) for r in rng)
         ctx.check(ok, "C29.by-height.bound", task.path, "iterated range is origin .. origin + amount.min(MAX_HEADERS_AMOUNT_RESPONSE)", key="C29.by-height.bound")
         nf = call_sites_with(ctx, task, ["*HeaderResponseExt*::not_found"])
         ok = len(nf) == 1
